@@ -237,6 +237,12 @@ func (g *c11Gen) action() {
 		nl := &gList{id: g.nextID, elems: append([]gElem{}, lx.elems...)}
 		args := []string{x}
 		for i := 0; i < n; i++ {
+			if g.pick("selfArg", 6) == 1 {
+				// the array itself among the values appended: the result holds it as an element (by reference)
+				nl.elems = append(nl.elems, gElem{sub: lx})
+				args = append(args, x)
+				continue
+			}
 			v, e := g.val()
 			nl.elems = append(nl.elems, e)
 			args = append(args, v)
@@ -377,7 +383,7 @@ func (c *Ctx) c11Program(s *Sub, sub, src string, nt bool, labels ...string) {
 	}
 }
 
-var c11Small = map[string]int{"bulk": 2, "keep": 1, "fromFront": 2, "valKind": 2, "oddVal": 2, "x": 2, "y": 2, "nested": 1, "sublen": 1, "len": 2, "index": 2, "viaLen": 1, "lenuse": 4, "extras": 2, "drop": 1}
+var c11Small = map[string]int{"selfArg": 2, "bulk": 2, "keep": 1, "fromFront": 2, "valKind": 2, "oddVal": 2, "x": 2, "y": 2, "nested": 1, "sublen": 1, "len": 2, "index": 2, "viaLen": 1, "lenuse": 4, "extras": 2, "drop": 1}
 
 func withSmall(over map[string]int, f func()) {
 	saved := map[string]int{}
